@@ -113,6 +113,15 @@ def _apply(acc, case):
 def enum_job(job):
     transport, keep, T, R, mode = job
     acc = Acc()
+    if mode == "exc-codes":
+        # every defined exception code (and a few undefined ones) on every transmission index: the request ends at once, whatever the code
+        for code in (1, 2, 3, 4, 5, 6, 7, 8, 10, 11, 0, 9, 16, 17, 128, 255):
+            for idx in range(R + 1):
+                for d in (0, 4, 15):
+                    case = {"transport": transport, "keep": keep, "T": T, "R": R, "script": [["drop"]] * idx + [["exc", d, code]], "latency": 0}
+                    _apply(acc, case)
+                    _apply(acc, dict(case, api=True))
+        return acc
     if mode in ("scripts", "scripts-api"):
         pal = palette(transport)
         for script in itertools.product(pal, repeat=R + 1):
@@ -153,7 +162,7 @@ def hyp_job(job):
         return st.one_of(
             st.just(("drop",)), st.tuples(st.just("answer"), tick_in), st.tuples(st.just("answer"), tick_late),
             st.tuples(st.just("garbage"), tick_any), st.tuples(st.just("short"), tick_any),
-            st.tuples(st.just("bad"), tick_any), st.tuples(st.just("exc"), tick_any, st.integers(0, 255)),
+            st.tuples(st.just("bad"), tick_any), st.tuples(st.just("exc"), tick_any, st.one_of(st.integers(0, 255), st.sampled_from((1, 2, 3, 4, 5, 6, 7, 8, 10, 11)))),
             st.tuples(st.just("frag"), cut, tick_any, tick_any), st.tuples(st.just("lone"), cut, tick_any),
             st.tuples(st.just("dup"), tick_any, tick_any), closes, st.tuples(st.just("senderr"), errn),
             st.lists(st.one_of(st.tuples(st.sampled_from(("head", "tail")), cut, tick_any).map(list),
@@ -198,6 +207,9 @@ def run(ctx):
         for keep in (False, True):
             for R in (0, 1):
                 jobs.append((transport, keep, 1.0, R, "scripts-api"))
+    for transport in ("udp", "tcp"):
+        for keep in (False, True):
+            jobs.append((transport, keep, 1.0, 2, "exc-codes"))
     for keep in (False, True):
         for R in (0, 1, 2):
             jobs.append(("tcp", keep, 1.0, R, "connect"))
